@@ -51,7 +51,7 @@ pub fn def() -> PropDef {
     }
 }
 
-pub const OPS: [&str; 12] = ["fr", "fq", "fq2", "convert", "decode", "affine-new", "g1", "g2", "pairing", "gt", "tower", "prepared"];
+pub const OPS: [&str; 13] = ["fr", "fq", "fq2", "convert", "decode", "affine-new", "g1", "g2", "pairing", "gt", "tower", "prepared", "raw-triples"];
 
 struct Tr {
     out: Vec<u8>,
@@ -302,6 +302,56 @@ fn op_group<G: Grp>(s: &mut Src, t: &mut Tr) -> Result<(), Failure> {
     Ok(())
 }
 
+/// group operations on ARBITRARY coordinate triples (G::new accepts anything): off-curve points, y = 0, z = 0, two triples
+/// with the same affine x and unrelated y, ... The values are unspecified; only "release == dbg, no debug-only panic" is.
+fn op_raw<G: Grp>(s: &mut Src, t: &mut Tr) {
+    t.nontrivial = true;
+    t.classes.push("malformed-input".into());
+    let comp = |s: &mut Src| -> G::B {
+        match s.choose(4) {
+            0 => G::B::zero(),
+            1 => G::B::one(),
+            _ => G::arb_base(s),
+        }
+    };
+    let (x, y1, y2) = (comp(s), comp(s), comp(s));
+    let (l, _) = G::lambda(s);
+    let (m, _) = G::lambda(s);
+    let shape = s.choose(5);
+    let (a, b) = match shape {
+        // same affine x, unrelated y, both z != 1
+        0 => (G::new(&x.mul(&l.sqr()), &y1.mul(&l.sqr().mul(&l)), &l), G::new(&x.mul(&m.sqr()), &y2.mul(&m.sqr().mul(&m)), &m)),
+        // same affine x, one operand with z = 1
+        1 => (G::new(&x, &y1, &G::B::one()), G::new(&x.mul(&m.sqr()), &y2.mul(&m.sqr().mul(&m)), &m)),
+        // y = 0 with z != 0
+        2 => (G::new(&x, &G::B::zero(), &l), G::new(&comp(s), &comp(s), &m)),
+        // arbitrary triples, components from {0, 1, boundary, uniform}
+        3 => (G::new(&comp(s), &comp(s), &comp(s)), G::new(&comp(s), &comp(s), &comp(s))),
+        // identical raw triples
+        _ => {
+            let p = G::new(&x, &y1, &l);
+            (p, p)
+        }
+    };
+    t.log.push(format!("{} raw triples shape {}: {} ; {}", G::NAME, shape, G::show(&a), G::show(&b)));
+    let emit = |t: &mut Tr, p: &G::L| {
+        let (x, y, z) = G::coords(p);
+        t.b(&G::enc_b(&x));
+        t.b(&G::enc_b(&y));
+        t.b(&G::enc_b(&z));
+    };
+    let k = fr_of(&scalar(s).k);
+    for v in [a + b, b + a, a - b, -a, a + a, a * k, G::rmul(k, b)] {
+        emit(t, &v);
+    }
+    t.flag(a == b);
+    t.flag(a.is_zero());
+    let mut n = a;
+    n.normalize();
+    emit(t, &n);
+    t.flag(G::affine_from_jacobian(b).is_some());
+}
+
 fn op_pairing(s: &mut Src, t: &mut Tr, prepared: bool) -> Result<(), Failure> {
     let (c, d) = (scalar(s).k, scalar(s).k);
     let (cp, cq) = (s.choose(3), s.choose(3));
@@ -398,6 +448,13 @@ pub fn transcript(g: &[u8]) -> (Vec<u8>, Vec<String>, bool, Vec<String>) {
                 8 => op_pairing(&mut s, &mut t, false)?,
                 9 => op_gt(&mut s, &mut t),
                 10 => op_tower(&mut s, &mut t),
+                12 => {
+                    if s.bool() {
+                        op_raw::<GA>(&mut s, &mut t)
+                    } else {
+                        op_raw::<GB>(&mut s, &mut t)
+                    }
+                }
                 _ => op_pairing(&mut s, &mut t, true)?,
             }
             Ok(())
